@@ -8,7 +8,7 @@ McHolds    == <<{1, 2}, {2, 3}>>
 McAW       == <<2, 3, 5, 7>>
 Blk(kd, al, h, w, bu, hm, n11, n12, n22, n23, t1, t2) ==
     [kind |-> kd, alt |-> al, h |-> h, w |-> w, bu |-> bu, hm |-> hm,
-     n |-> <<<<n11, n12, 0, 0>>, <<0, n22, n23, 0>>>>, t |-> <<t1, t2>>]
+     n |-> <<<<n11, n12, 0, 0>>, <<0, n22, n23, 0>>>>, t |-> <<t1, t2>>, ord |-> <<1, 2>>, lfp |-> FALSE]
 FR  == {"fuel", "reflector"}
 FCR == {"fuel", "control", "reflector"}
 
@@ -32,6 +32,16 @@ KindX == {Blk(kd, al, 1, 1, 2, 1, 2, 1, 0, b, 700, 400) : kd \in FCR, al \in {FA
 KindS == {Blk(kd, al, 1, 1, 2, 1, a, 1, 0, b, 700, 400) : kd \in FCR, al \in {FALSE, TRUE}, a \in {0, 2}, b \in {0, 1}}
 KindM == {Blk(kd, al, h, 1, 2, 1, a, 1, 0, b, t1, 400) : kd \in FCR, al \in {FALSE, TRUE}, h \in {1, 2}, a \in {0, 2}, b \in {0, 1}, t1 \in {400, 700}}
 KindL == {Blk(kd, al, h, 1, bu, 1, a, 1, 0, b, t1, 400) : kd \in FCR, al \in {FALSE, TRUE}, h \in {1, 2}, bu \in {2, 5}, a \in {0, 2}, b \in {0, 1}, t1 \in {400, 700}}
+\* the 1-D cylinder option: block type (ineligible members in every position), height, density of nuclide 1, both temperatures
+\* (no two different temperature pairs have the same block average: the copied candidate is decided by a float comparison)
+CylS  == {Blk(kd, FALSE, h, 1, bu, 1, a, 1, 1, 2, t1, 300) : kd \in FR, h \in {1, 3}, bu \in {2}, a \in {0, 2}, t1 \in {400, 700}}
+CylM  == {Blk(kd, FALSE, h, 1, bu, hm, a, 1, 1, 2, t1, t2) : kd \in FR, h \in {1, 3}, bu \in {0, 4}, hm \in {1}, a \in {0, 1, 2}, t1 \in {400, 700}, t2 \in {300, 520}}
+CylL  == {Blk(kd, FALSE, h, 1, bu, hm, a, 1, b, 2, t1, t2) : kd \in FR, h \in {1, 2, 3}, bu \in {0, 4}, hm \in {1, 2}, a \in {0, 1, 2}, b \in {0, 2}, t1 \in {400, 700}, t2 \in {300, 520}}
+CylTri == {Blk(kd, FALSE, h, 1, a, 1, a, 1, 1, 2, 400 + 100 * a, 300) : kd \in FR, h \in {1, 3}, a \in {0, 2}}
+\* blocks that carry a lumped-fission-product collection (what depletion models put on fuel blocks)
+LfpS  == {[Blk("fuel", FALSE, h, 1, bu, 1, 1, 1, 1, 1, 600, 400) EXCEPT !.lfp = l] : h \in {1, 2}, bu \in {0, 3}, l \in BOOLEAN}
+\* components stored in a different order than the sorted one (two components: both orders)
+OrdS  == {[Blk("fuel", FALSE, h, 1, 2, 1, a, 1, 1, 2, 600, 400) EXCEPT !.ord = o] : h \in {1, 2}, a \in {0, 2}, o \in {<<1, 2>>, <<2, 1>>}}
 \* collections of three and four: everything varies a little
 TriX  == {Blk(kd, FALSE, 1 + p[1] \div 2, p[1], p[3], p[2], p[2], 1, 1, 1, 600 + 50 * p[1], 400) : kd \in FR, p \in {<<0, 0, 0>>, <<2, 2, 3>>, <<1, 1, 8>>}}
 TriS  == {Blk(kd, FALSE, h, p[1], p[3], p[2], p[2], 1, 1, 1, 600 + 50 * p[1], 400) : kd \in FR, h \in {1, 2}, p \in {<<0, 0, 0>>, <<2, 2, 3>>}}
@@ -42,21 +52,30 @@ OptsDens == {Opt("Average", "fuel", FALSE), Opt("Average", "all", TRUE), Opt("Fl
 OptsTemp == {Opt("Average", "fuel", TRUE), Opt("FluxWeightedAverage", "all", FALSE), Opt("Median", "fuel", FALSE)}
 OptsBurn == {Opt("Average", "fuel", FALSE), Opt("FluxWeightedAverage", "fuel", FALSE), Opt("Median", "fuel", FALSE), Opt("Median", "all", FALSE)}
 OptsKind == {Opt("Average", "fuelcontrol", TRUE), Opt("Average", "fuel", TRUE), Opt("Median", "fuelcontrol", FALSE)}
+OptsCyl  == {Opt("ComponentAverage1DCylinder", "fuel", FALSE), Opt("ComponentAverage1DCylinder", "all", FALSE)}
+OptsLfp  == {Opt("Median", "fuel", FALSE), Opt("Average", "fuel", FALSE), Opt("ComponentAverage1DCylinder", "fuel", FALSE)}
+OptsOrd  == {Opt("Average", "fuel", TRUE), Opt("ComponentAverage1DCylinder", "fuel", FALSE), Opt("Median", "fuel", FALSE)}
 OptsTri  == {Opt("Average", "fuel", FALSE), Opt("FluxWeightedAverage", "fuel", TRUE), Opt("Median", "fuel", FALSE), Opt("Median", "all", FALSE), Opt("Average", "all", TRUE)}
 
-Fams == {"dens", "temp", "burn", "kind", "tri"}
+Fams == {"dens", "temp", "burn", "kind", "tri", "cyl", "cyl3", "lfp", "ord"}
 OptsFor(f) == CASE f = "dens" -> OptsDens [] f = "temp" -> OptsTemp [] f = "burn" -> OptsBurn [] f = "kind" -> OptsKind [] f = "tri" -> OptsTri
+                [] f \in {"cyl", "cyl3"} -> OptsCyl [] f = "lfp" -> OptsLfp [] f \in {"ord", "perm"} -> OptsOrd
 \* laws, quick: small domains, pairs (triples for "tri")
+Extra(f) == CASE f = "cyl3" -> CylTri [] f = "lfp" -> LfpS [] f = "ord" -> OrdS
 DomMcQ(f) == CASE f = "dens" -> DensX [] f = "temp" -> TempS [] f = "burn" -> BurnX [] f = "kind" -> KindX [] f = "tri" -> TriX
-MaxMcQ(f) == IF f = "tri" THEN 3 ELSE 2
+               [] f = "cyl" -> CylS [] OTHER -> Extra(f)
+MaxMcQ(f) == IF f \in {"tri", "cyl3"} THEN 3 ELSE 2
 \* laws, thorough: medium domains; triples of the small ones would be 10^5 states each, so "tri" carries the triples/quadruples
 DomMcT(f) == CASE f = "dens" -> DensM [] f = "temp" -> TempM [] f = "burn" -> BurnM [] f = "kind" -> KindM [] f = "tri" -> TriS
-MaxMcT(f) == IF f = "tri" THEN 4 ELSE 2
+               [] f = "cyl" -> CylM [] OTHER -> Extra(f)
+MaxMcT(f) == IF f = "tri" THEN 4 ELSE IF f = "cyl3" THEN 4 ELSE 2
 \* cases for the real code, quick / thorough
 DomEmQ(f) == CASE f = "dens" -> DensM [] f = "temp" -> TempM [] f = "burn" -> BurnS [] f = "kind" -> KindS [] f = "tri" -> TriM
-MaxEmQ(f) == IF f = "tri" THEN 3 ELSE 2
+               [] f = "cyl" -> CylM [] OTHER -> Extra(f)
+MaxEmQ(f) == IF f \in {"tri", "cyl3"} THEN 3 ELSE 2
 DomEmT(f) == CASE f = "dens" -> DensL [] f = "temp" -> TempL [] f = "burn" -> BurnL [] f = "kind" -> KindL [] f = "tri" -> TriS
-MaxEmT(f) == IF f = "tri" THEN 4 ELSE 2
+               [] f = "cyl" -> CylL [] OTHER -> Extra(f)
+MaxEmT(f) == IF f \in {"tri", "cyl3"} THEN 4 ELSE 2
 
 View == <<fam, members>>
 \* one JSON line per explored CreateRepresentative edge = one case for the real code
